@@ -670,7 +670,7 @@ class AgentExecutingComponent(rpu.AgentComponent):
         else              : gpr = '%f' % gpr
 
         ctrl_pub_addr = self._reg['bridges.control_pubsub']['addr_pub']
-        ctrl_sub_addr = self._reg['bridges.control_pubsub']['addr_pub']
+        ctrl_sub_addr = self._reg['bridges.control_pubsub']['addr_sub']
 
         ret  = '\n'
         ret += 'export RP_TASK_ID="%s"\n'           % tid
